@@ -36,7 +36,11 @@ pub struct OutdatedTable {
 }
 impl OutdatedTable {
     pub fn new() -> Self {
-        let data = crate::model::leap::table().iter().take(10).map(|&(ts, d)| hifitime::leap_seconds::LeapSecond::new(ts as f64, d as f64, true)).collect();
+        Self::with_len(10)
+    }
+    /// the IERS list as it stood after its n-th entry (0: an empty table, 26: the 2014 edition)
+    pub fn with_len(n: usize) -> Self {
+        let data = crate::model::leap::table().iter().take(n).map(|&(ts, d)| hifitime::leap_seconds::LeapSecond::new(ts as f64, d as f64, true)).collect();
         OutdatedTable { data, pos: 0 }
     }
 }
@@ -78,13 +82,24 @@ pub fn pretouch(e: &Epoch, c: i128) {
     // which epoch is touched: the one in hand, its mirror image about the scale's zero (a memo keyed with `Duration ==`, which
     // holds between x and -x within a century, answers for the wrong side), or a neighbour an hour / a year away (a memo of
     // "the table entry / year that matched last" tried first with a cheaper, less exact comparison)
-    let variant = (h >> 8) % 6;
+    // (round 8: more distances - a warm start "when the previous call was close" has its own idea of close: seconds, minutes,
+    // just under an hour, the same day; and the near-mirror -c - 1, the same nanoseconds in the next century)
+    let variant = (h >> 8) % 16;
     let tc = match variant {
         0 | 1 => c,
-        2 => -c,
-        3 => c + NS_H,
-        4 => c - NS_H,
-        _ => c + 400 * NS_D,
+        2 | 3 => -c,
+        4 => c + NS_H,
+        5 => c - NS_H,
+        6 => c + 400 * NS_D,
+        7 => c + 20 * NS_MIN,
+        8 => c - 20 * NS_MIN,
+        9 => c + 1,
+        10 => c - 1,
+        11 => c + NS_S,
+        12 => c - 30 * NS_S,
+        13 => c + NS_D / 3,
+        14 => -c - 1,
+        _ => c + NPC,
     };
     if !(MIN_NS + NPC..=MAX_NS - NPC).contains(&tc) {
         return;
@@ -92,8 +107,12 @@ pub fn pretouch(e: &Epoch, c: i128) {
     let e = Epoch::from_duration(mk(tc), e.time_scale);
     // the order of the conversions rotates, so that "the last conversion made" has every target in turn
     let rot = ((h >> 16) % 9) as usize;
+    // another table is consulted first (it finds any memo of the built-in table cold for this instant and leaves its own
+    // answer behind), last, or not at all; the other table is the list of 1977, of 2014, or an empty one
+    let other = move || OutdatedTable::with_len([10usize, 26, 0, 10][((h >> 24) % 4) as usize]);
     let _ = guard(move || {
-        let a = (e.leap_seconds(false), e.leap_seconds(true), e.leap_seconds_iers(), if rot % 3 == 0 { e.leap_seconds_with(true, OutdatedTable::new()) } else { None });
+        let a0 = if rot % 3 == 0 { (e.leap_seconds_with(true, other()), e.leap_seconds_with(false, other())) } else { (None, None) };
+        let a = (a0, e.leap_seconds(false), e.leap_seconds(true), e.leap_seconds_iers(), if rot % 3 == 1 { e.leap_seconds_with(true, other()) } else { None });
         let b = (e.to_gregorian_utc(), e.to_gregorian_tai(), e.weekday(), e.weekday_utc(), e.day_of_year(), e.year(), e.month_name());
         let v = (e.to_unix_seconds(), e.to_mjd_utc_days(), e.to_jde_et_days(), e.to_jde_tdb_days());
         let mut k = 0i128;
